@@ -2907,9 +2907,16 @@ example : (match aggrRead sampleEnv .integer (IStream.ofBytes [40, 49, 44, 32, 4
     Excluded, i.e. left to the element reader's own verdict on the bytes of one element position: (1) an *empty* position
     (`(a,,b)`, `(a,)`, `(,a)`) — the readers of STRING, BOOLEAN, LOGICAL, ENUMERATION and entity references answer it with
     nothing worse than INCOMPLETE, which the loop does not hand on (`C09_aggr_missing_element_witness`, finding
-    `agg:missing-element-read-as-unset`); (2) the lenient spellings each element reader accepts at attribute level
-    (`C09_never_silent_*`); the attribute-level never-silent theorems are stated for a stream that starts at the value and
-    are not transferred to mid-stream positions here. -/
+    `agg:missing-element-read-as-unset`; gone with the loop's "missing element" test, `C09_aggr_no_missing_element`);
+    (2) the lenient spellings each element reader accepts at attribute level (`C09_never_silent_*`; transferred to any
+    position of any stream by the `C09_aggr_*_element_never_silent_any_stream` theorems);
+    (3) **what `ReadTokenSeparator` consumes in front of an element** — every element-reader call of the `LoopRun` begins with
+    it, and it takes more than separators: besides blanks, comments and `\N\` / `\F\` it drops, with no report, a `/` that
+    starts no comment and a `\` that starts no complete print control directive, so `(0, / 7)`, `(0,/7)`, `(0, \ 7)`,
+    `(0, \N 7)` are stored as `(0,7)` with severity NULL (`C09_aggr_stray_slash_witness`, finding
+    `agg:stray-slash-or-backslash-dropped`).  What is proved about that skip on arbitrary input is where it ends
+    (`readTokenSeparator_head`: in front of a character that is not a blank, `/` or `\`), not that what it skipped is a
+    conforming layout. -/
 theorem C09_aggr_never_silent_partial {F} (env : Env F) (ty : ElemTy) (s : IStream) (sev : Sev) (es : List (Elem F))
     (sf : IStream) (h : aggrRead env ty s = .ok (sev, some es, sf)) (hne : NoErr sev) :
     sev = .null ∧ s.ws.peekC.1 = 40 ∧
@@ -3197,13 +3204,18 @@ theorem C09_aggr_number_integer_spelling_witness :
 
 /-- what `ReadTokenSeparator` skips is not always a separator (finding `agg:stray-slash-or-backslash-dropped`): `(0, / 7)`,
     `(0,/7)`, `(0, \ 7)` and `(0, \N 7)` — a `/` that starts no comment, a `\` that starts no complete print control
-    directive — are read as `(0,7)` with severity NULL; behind the element, `(0 / ,7)`, the same `/` is reported -/
+    directive — are read as `(0,7)` with severity NULL; behind the element, `(0 / ,7)`, the same `/` is reported; and the
+    backslash takes up to two more characters with it: `(\1.5,-40)` of NUMBER is stored as (0.5, -40.0) -/
 theorem C09_aggr_stray_slash_witness :
     aggrSilent (aggrRead sampleEnv .integer (IStream.ofBytes [40, 48, 44, 32, 47, 32, 55, 41, 44])) [.atom (.int 0), .atom (.int 7)] = true ∧
     aggrSilent (aggrRead sampleEnv .integer (IStream.ofBytes [40, 48, 44, 47, 55, 41, 44])) [.atom (.int 0), .atom (.int 7)] = true ∧
     aggrSilent (aggrRead sampleEnv .integer (IStream.ofBytes [40, 48, 44, 32, 92, 32, 55, 41, 44])) [.atom (.int 0), .atom (.int 7)] = true ∧
     aggrSilent (aggrRead sampleEnv .integer (IStream.ofBytes [40, 48, 44, 32, 92, 78, 32, 55, 41, 44])) [.atom (.int 0), .atom (.int 7)] = true ∧
-    aggrSev (aggrRead sampleEnv .integer (IStream.ofBytes [40, 48, 32, 47, 32, 44, 55, 41, 44])) = some .warning := by
+    aggrSev (aggrRead sampleEnv .integer (IStream.ofBytes [40, 48, 32, 47, 32, 44, 55, 41, 44])) = some .warning ∧
+    -- `(\1.5,-40)` of NUMBER: `ReadPcd` eats the backslash *and* the `1`; the element is read from `.5` — stored 0.5, severity NULL
+    (match aggrRead sampleEnv .number (IStream.ofBytes [40, 92, 49, 46, 53, 44, 45, 52, 48, 41, 44]) with
+      | .ok (sev, some [.atom (.real v), .atom (.real w)], _) => sev == .null && v == 0x3FE0000000000000 && w == 0xC044000000000000
+      | _ => false) = true := by
   decide
 
 end Aggregates
